@@ -493,6 +493,8 @@ where
         M: IntoIterator<Item = VI>,
     {
         let mut rng = rng();
+        #[cfg(prio_verif)]
+        let mut rng = crate::verif_hooks::SimRng::wrap(rng);
         if input.is_empty() {
             return Err(
                 IdpfError::InvalidParameter("invalid number of bits: 0".to_string()).into(),
